@@ -152,7 +152,7 @@ Proof. reflexivity. Qed.
 (* RunTask on a RUNNING task of a live workflow executes the task and hands the result to the two functions above *)
 Lemma run_task_executes orc s id i t a st tk :
   get_stage s i = Some st -> nth_error (s_tasks st) t = Some tk -> t_status tk = RUNNING ->
-  w_canceled s = false -> is_complete (w_status s) = false ->
+  w_canceled s = false -> is_complete (w_status s) = false -> status_eqb (w_status s) PAUSED = false ->
   handle_run_task orc s id i t a =
   {| h_pre := Some (i, t);
      h_commits := let r := orc i t (count_execs s i t) in
@@ -161,7 +161,7 @@ Lemma run_task_executes orc s id i t a st tk :
                   | _ => process_result s id i t st tk r end;
      h_raised := false |}.
 Proof.
-  intros Hs Ht Hr Hc Hw. unfold handle_run_task. rewrite Hs, Ht, Hr, Hc, Hw. reflexivity.
+  intros Hs Ht Hr Hc Hw Hp. unfold handle_run_task. rewrite Hs, Ht, Hr, Hc, Hw, Hp. reflexivity.
 Qed.
 
 Record retry_ready (s : state) (id i t : nat) : Prop := {
@@ -171,7 +171,8 @@ Record retry_ready (s : state) (id i t : nat) : Prop := {
   rr_unmarked : mem_nat id (w_processed s) = false;
   rr_task : exists st tk, get_stage s i = Some st /\ nth_error (s_tasks st) t = Some tk /\ t_status tk = RUNNING;
   rr_flag : w_canceled s = false;
-  rr_live : is_complete (w_status s) = false
+  rr_live : is_complete (w_status s) = false;
+  rr_unpaused : status_eqb (w_status s) PAUSED = false
 }.
 
 Definition transient_forever (orc : oracle) (i t : nat) : Prop := forall n, exists c, orc i t n = RTransient c.
@@ -183,14 +184,14 @@ Lemma step_shape orc s id i t :
     step orc s (Deliver id true) =
     apply_commits [retry_commit i t st c; [OMark id]; [OAck id]] (ghost_exec i t (bump_attempts id s)).
 Proof.
-  intros R Ho. destruct R as [Hrow Hids Hmarks Hun [st [tk [Hs [Ht Hr]]]] Hc Hw].
+  intros R Ho. destruct R as [Hrow Hids Hmarks Hun [st [tk [Hs [Ht Hr]]]] Hc Hw Hp].
   destruct (Ho (count_execs s i t)) as [c Hc'].
   exists st, c. split; [exact Hs|].
   cbn [step]. unfold delivery_commits. rewrite Hrow. cbn [q_attempts q_msg].
   change (queue_max_attempts <=? 0)%Z with false. cbn iota.
   change (w_processed (bump_attempts id s)) with (w_processed s). rewrite Hun.
   unfold handle. cbn [q_msg q_id q_attempts].
-  rewrite (run_task_executes orc (bump_attempts id s) id i t (0 + 1)%Z st tk Hs Ht Hr Hc Hw).
+  rewrite (run_task_executes orc (bump_attempts id s) id i t (0 + 1)%Z st tk Hs Ht Hr Hc Hw Hp).
   cbn [h_pre h_commits h_raised d_poll d_pre d_rest].
   change (count_execs (bump_attempts id s) i t) with (count_execs s i t). rewrite Hc'. cbn zeta iota.
   rewrite handle_exception_transient. change (retry_guard (0 + 1) default_max_attempts) with true. cbn iota.
@@ -248,7 +249,7 @@ Proof.
   intros R Ho s'. destruct (step_shape orc s id i t R Ho) as [st [c [Hs E]]].
   unfold s'. rewrite E. clear E s'. fold (after_retry s id i t st c).
   destruct (after_retry_fields s id i t st c) as [Eq [En [Ep [Est [Ec [Ew Ex]]]]]].
-  destruct R as [Hrow Hids Hmarks Hun [st0 [tk [Hs0 [Ht Hr]]]] Hc Hw].
+  destruct R as [Hrow Hids Hmarks Hun [st0 [tk [Hs0 [Ht Hr]]]] Hc Hw Hp].
   rewrite Hs in Hs0. inversion Hs0; subst st0. clear Hs0.
   destruct (find_row_id _ _ _ Hrow) as [_ Hin].
   assert (id < w_next s) as Hlt. { rewrite Forall_forall in Hids. apply (Hids _ Hin). }
@@ -269,6 +270,7 @@ Proof.
       apply nth_list_set_same with st. exact Hs.
   - rewrite Ec. exact Hc.
   - rewrite Ew. exact Hw.
+  - rewrite Ew. exact Hp.
 Qed.
 
 (* ---- the unbounded run ---- *)
@@ -318,7 +320,7 @@ Proof.
   destruct (warm_up_ready orc) as [R [Hw Hc]].
   destruct (retry_forever orc 0 0 Ho n _ _ R) as [acts [_ [Hcnt [Hst [id' R']]]]].
   exists (warm_up ++ acts). cbn zeta. rewrite run_app. split; [lia|]. split; [|congruence].
-  destruct R' as [_ _ _ _ [st [tk [Hs [Ht Hr]]]] _ _]. unfold task_status. rewrite Hs, Ht. simpl. congruence.
+  destruct R' as [_ _ _ _ [st [tk [Hs [Ht Hr]]]] _ _ _]. unfold task_status. rewrite Hs, Ht. simpl. congruence.
 Qed.
 
 (* ------------------------------------------------------------------------------------------ *)
@@ -382,6 +384,7 @@ Proof.
   destruct (negb (run_task_guard (t_status tk))); [repeat constructor|].
   destruct (w_canceled s); [repeat constructor|].
   destruct (is_complete (w_status s)); [repeat constructor|].
+  destruct (status_eqb (w_status s) PAUSED); [repeat constructor|].
   cbn [h_commits]. destruct (orc i t (count_execs s i t)) as [o| | | |c|c| |tg| | | |]; cbn zeta iota;
     try (unfold process_result; repeat constructor; fail).
   - rewrite handle_exception_transient. destruct (retry_guard a default_max_attempts); [|repeat constructor].
@@ -550,7 +553,7 @@ Lemma delivery_keeps_progress orc s id do_ack r0 i t st tk c :
   find_row s id = Some r0 -> q_msg r0 = MRunTask i t -> (q_attempts r0 < queue_max_attempts)%Z ->
   mem_nat id (w_processed s) = false ->
   get_stage s i = Some st -> nth_error (s_tasks st) t = Some tk -> t_status tk = RUNNING ->
-  w_canceled s = false -> is_complete (w_status s) = false ->
+  w_canceled s = false -> is_complete (w_status s) = false -> status_eqb (w_status s) PAUSED = false ->
   kept_ctx (orc i t (count_execs s i t)) = Some c ->
   (forall c', orc i t (count_execs s i t) = RTransient c' -> retry_guard (q_attempts r0 + 1) default_max_attempts = true) ->
   exists one : commit,
@@ -559,12 +562,12 @@ Lemma delivery_keeps_progress orc s id do_ack r0 i t st tk c :
               d_rest := one :: [OMark id] :: (if do_ack then [[OAck id]] else []) |} /\
     (one = retry_commit i t st c \/ one = [store_ctx i st c; OPush (MRunTask i t)]).
 Proof.
-  intros Hr Hm Ha Hun Hs Ht Hrun Hc Hw Hk Hg.
+  intros Hr Hm Ha Hun Hs Ht Hrun Hc Hw Hp Hk Hg.
   unfold delivery_commits. rewrite Hr.
   destruct (queue_max_attempts <=? q_attempts r0)%Z eqn:E; [apply Z.leb_le in E; lia|].
   change (w_processed (bump_attempts id s)) with (w_processed s). rewrite Hun.
   unfold handle. cbn [q_msg q_id q_attempts]. rewrite Hm.
-  rewrite (run_task_executes orc (bump_attempts id s) id i t (q_attempts r0 + 1)%Z st tk Hs Ht Hrun Hc Hw).
+  rewrite (run_task_executes orc (bump_attempts id s) id i t (q_attempts r0 + 1)%Z st tk Hs Ht Hrun Hc Hw Hp).
   cbn [h_pre h_commits h_raised].
   change (count_execs (bump_attempts id s) i t) with (count_execs s i t).
   destruct (orc i t (count_execs s i t)) as [o| | | |c0|c0| |tg| | | |] eqn:Ho; try discriminate; simpl in Hk; inversion Hk; subst c0; cbn zeta iota.
@@ -629,7 +632,7 @@ Lemma progress_atomic_under_cut orc s id r0 i t st tk c k :
   find_row s id = Some r0 -> q_msg r0 = MRunTask i t -> (q_attempts r0 < queue_max_attempts)%Z ->
   mem_nat id (w_processed s) = false ->
   get_stage s i = Some st -> nth_error (s_tasks st) t = Some tk -> t_status tk = RUNNING ->
-  w_canceled s = false -> is_complete (w_status s) = false ->
+  w_canceled s = false -> is_complete (w_status s) = false -> status_eqb (w_status s) PAUSED = false ->
   kept_ctx (orc i t (count_execs s i t)) = Some c ->
   (forall c', orc i t (count_execs s i t) = RTransient c' -> retry_guard (q_attempts r0 + 1) default_max_attempts = true) ->
   Forall (fun r => q_id r < w_next s) (w_queue s) ->
@@ -637,8 +640,8 @@ Lemma progress_atomic_under_cut orc s id r0 i t st tk c k :
   (has_row s' (w_next s) (MRunTask i t) /\ stage_ctx s' i = Some (kv_update (s_ctx st) c)) \/
   (find_row s' (w_next s) = None /\ w_stages s' = w_stages s).
 Proof.
-  intros Hr Hm Ha Hun Hs Ht Hrun Hc Hw Hk Hg Hids s'.
-  destruct (delivery_keeps_progress orc s id true r0 i t st tk c Hr Hm Ha Hun Hs Ht Hrun Hc Hw Hk Hg) as [one [Hd Hone]].
+  intros Hr Hm Ha Hun Hs Ht Hrun Hc Hw Hp Hk Hg Hids s'.
+  destruct (delivery_keeps_progress orc s id true r0 i t st tk c Hr Hm Ha Hun Hs Ht Hrun Hc Hw Hp Hk Hg) as [one [Hd Hone]].
   destruct (find_row_id _ _ _ Hr) as [Hid Hin].
   assert (id < w_next s) as Hlt. { rewrite <- Hid. rewrite Forall_forall in Hids. apply (Hids _ Hin). }
   assert (find_row s (w_next s) = None) as Hnone by (apply find_none_ids; exact Hids).
